@@ -1,16 +1,17 @@
 #!/bin/bash
 # usage: eval_pair.sh Cxx [extra eval_seeded args]  -- evaluates variants A and B and prints one line each
 p=$1; shift
-mkdir -p /tmp/seed/$p
+mkdir -p /tmp/seedlogs
 for x in A B; do
-  $(dirname $0)/eval_seeded.py $p $x "$@" > /tmp/seed/$p/eval$x.log 2>&1
-  python3 - "$p" "$x" <<'PY'
+  log=/tmp/seedlogs/$p-$x-$$.log
+  $(dirname $0)/eval_seeded.py $p $x "$@" > $log 2>&1
+  python3 - "$p" "$x" "$log" <<'PY'
 import json,sys
-p,x=sys.argv[1:3]
-t=open('/tmp/seed/%s/eval%s.log'%(p,x)).read()
+p,x,log=sys.argv[1:4]
+t=open(log).read()
 try:
     m=json.loads(t[t.index('{'):])
-    print(p,x,'confirmed=%s'%m.get('confirmed'),'tests_pass=%s'%m.get('repo_tests_pass'),'demo=%s/%s'%(m.get('demo_on_unchanged_tree_exit'),m.get('demo_with_change_exit')),m.get('checks'))
+    print(p,m.get('variant'),'confirmed=%s'%m.get('confirmed'),'tests_pass=%s'%m.get('repo_tests_pass'),'demo=%s/%s'%(m.get('demo_on_unchanged_tree_exit'),m.get('demo_with_change_exit')),m.get('checks'))
 except Exception as e:
     print(p,x,'ERR',t[-400:])
 PY
